@@ -385,13 +385,11 @@ def run_registration(repo: Repo, res: Result, rule: str) -> int:
 
 
 def _is_plumbing_test(sx: SymX, key: str) -> bool:
-    """`x is None` / truthiness of the result of a call the executor did not enter: Optional-plumbing, not a scan condition."""
+    """`x is None` for a value the executor could not look into: Optional-plumbing, not a recognisable scan condition."""
     t = sx.atoms.get(key)
     if t is None:
         return False
-    if t[0] == "cmp" and t[1] == "is" and (is_none(t[2]) or is_none(t[3])):
-        return True
-    return t[0] in ("call", "mcall", "new") and not (t[0] == "mcall" and t[2] in ("is_dir", "is_file", "exists", "startswith", "endswith", "match", "is_excluded"))
+    return t[0] == "cmp" and t[1] == "is" and (is_none(t[2]) or is_none(t[3]))
 
 
 def is_none(t: Term) -> bool:
